@@ -101,6 +101,10 @@ impl<'a> TypeVisitor for ZodVisitor<'a> {
                 }
             }
         }
+        // A type the analysis could not express has no schema of its own
+        if name == "unknown" {
+            return "z.unknown()".to_string();
+        }
         // No mapping found, reference the schema for custom types
         format!("{}Schema", name)
     }
